@@ -13,6 +13,9 @@ def body_pruning(case, rec):
     ti, si = case["tpl"], case["sub"]
     kind, invert, strategy = case["kind"], case["invert"], case["strategy"]
     t0, _, style = cg.corpus()[ti]
+    if rx.slow_known(t0, kind, invert):
+        rec.label("excluded:known-h2-full-its-backward")
+        return
     if case.get("tmaps"):
         t0 = cg.variant(t0, dict(maps=case["tmaps"]))
     s_rsmi = cg.corpus()[si][0]
